@@ -59,6 +59,10 @@ func c04MutantNamed(name string) Mutant {
 }
 
 var c04Mutants = []Mutant{
+	{Name: "lone-speaker-reports-membership-disabled", File: "internal/speakerlist/speakerlist.go",
+		Old: "\tactiveNodes := map[string]bool{}\n\tfor _, n := range sl.ml.Members() {", New: "\tif sl.ml.NumMembers() <= 1 {\n\t\treturn SpeakerListInfo{Disabled: true}\n\t}\n\tactiveNodes := map[string]bool{}\n\tfor _, n := range sl.ml.Members() {", Expect: "MEMBERSHIP"},
+	{Name: "members-named-like-me-skipped", File: "internal/speakerlist/speakerlist.go",
+		Old: "\tfor _, n := range sl.ml.Members() {\n\t\tactiveNodes[n.Name] = true", New: "\tfor _, n := range sl.ml.Members() {\n\t\tif n.State != memberlist.StateAlive {\n\t\t\tbreak\n\t\t}\n\t\tactiveNodes[n.Name] = true", Expect: "MEMBERSHIP"},
 	{Name: "active-endpoint-needs-node-name", File: "speaker/layer2_controller.go",
 		Old: "\t\t\tif !epslices.EndpointCanServe(ep.Conditions) {\n\t\t\t\tcontinue\n\t\t\t}\n\t\t\treturn true", New: "\t\t\tif !epslices.EndpointCanServe(ep.Conditions) || ep.NodeName == nil {\n\t\t\t\tcontinue\n\t\t\t}\n\t\t\treturn true", Expect: "WINNER"},
 	{Name: "endpoint-scan-stops-at-first-unnamed", File: "speaker/layer2_controller.go",
@@ -102,6 +106,8 @@ var c04Mutants = []Mutant{
 }
 
 func runC04(p *chk.Prog, r *chk.Report) {
+	c09Exit(p, r)
+	membershipRule(p, r)
 	nodeExclusionRule(p, r)
 	nodeNetworkRule(p, r)
 	c04Election(p, r)
@@ -116,6 +122,9 @@ func runC04(p *chk.Prog, r *chk.Report) {
 }
 
 func runC12(p *chk.Prog, r *chk.Report) {
+	// the addresses the election is keyed on are the ones in the Service status (IP-CHANGE, shared with C09)
+	c09Exit(p, r)
+	membershipRule(p, r)
 	c04Eligible(p, r)
 	nodeExclusionRule(p, r)
 	nodeNetworkRule(p, r)
@@ -490,6 +499,22 @@ func c04Eligible(p *chk.Prog, r *chk.Report) {
 		g := f.Graph()
 		nodes, pool := isParam(f, "nodes"), isParam(f, "pool")
 		sets := g.Find(f.IsAssignPat("R[S]", "true"))
+		// a set of the nodes the pool's L2 advertisements select, computed once (what poolMatchesNodeL2 answers node by
+		// node) is not the candidate set
+		poolSel := chk.NoGuard
+		{
+			var keep []chk.Site
+			for _, st := range sets {
+				m := f.RootObj(st.Node.(*ast.AssignStmt).Lhs[0])
+				if m != nil && c04PoolNodeSet(f, g, m, pool) {
+					poolSel = chk.GBool(true, func(e ast.Expr) bool { return f.MatchWith("M[_]", e, chk.H("M", f.IsObj(m))) != nil })
+					c04PoolSets[m] = true
+					continue
+				}
+				keep = append(keep, st)
+			}
+			sets = keep
+		}
 		// one site fed by a source that is selected first, or one site per source (the per-node test written once as a local
 		// function and run from a loop over the members and from a loop over all nodes)
 		x.Check("speakersForPool:candidate-site", f.Pos(), len(sets) == 1 || len(sets) == 2, "", "expected one `res[s] = true` (or one per candidate source)")
@@ -510,7 +535,13 @@ func c04Eligible(p *chk.Prog, r *chk.Report) {
 			same := func(e ast.Expr) bool { return f.SameExpr(e, key) }
 			x.Check("speakersForPool:network-available", s.Pos(), g.Dominated(s, g.GPat(false, "k8snodes.IsNetworkUnavailable(N[S])", chk.H("N", nodes), chk.H("S", same))), "", "a network-unavailable node can become a candidate")
 			x.Check("speakersForPool:not-excluded", s.Pos(), g.Dominated(s, g.GPat(false, "!IGN && k8snodes.IsNodeExcludedFromBalancers(N[S])", chk.H("IGN", recvFieldOrPassed(p, f, "layer2Controller", "ignoreExcludeLB")), chk.H("N", nodes), chk.H("S", same))), "", "a node excluded from external load balancers can become a candidate although exclusion is not ignored")
-			x.Check("speakersForPool:pool-selects-node", s.Pos(), g.Dominated(s, g.GPat(true, "poolMatchesNodeL2(P, S)", chk.H("P", pool), chk.H("S", same))), "", "a node that no L2 advertisement of the pool selects can become a candidate")
+			selects := g.Dominated(s, g.GPat(true, "poolMatchesNodeL2(P, S)", chk.H("P", pool), chk.H("S", same)))
+			if !selects && !poolSel.IsNone() {
+				for m := range c04PoolSets {
+					selects = selects || g.Dominated(s, g.GPat(true, "M[S]", chk.H("M", f.IsObj(m)), chk.H("S", same)))
+				}
+			}
+			x.Check("speakersForPool:pool-selects-node", s.Pos(), selects, "", "a node that no L2 advertisement of the pool selects can become a candidate")
 			// s ranges over the eligible nodes
 			rs, _ := f.LoopOf(s.Node).(*ast.RangeStmt)
 			okSrc := rs != nil && rangeKey(f, rs)(key)
@@ -594,9 +625,16 @@ func c04Eligible(p *chk.Prog, r *chk.Report) {
 			}
 			x.Check("speakersForPool:both-sources", f.Pos(), ok2, "", "with two candidate sites, one must range over the usable speakers (always run when membership tracking is enabled) and the other over all nodes when it is disabled")
 		}
+		c04KeysAlongside = false
 		for _, rt := range g.Returns() {
 			res := retResults(rt)
 			okRet := len(sets) >= 1 && len(res) == 1
+			if len(sets) >= 1 && len(res) == 2 {
+				// the names of the set handed out with it: a list that starts empty, gains the key in the same basic block
+				// as every insertion into the set, and is assigned nowhere else
+				okRet = c04ListOfKeys(f, g, sets, f.ObjOf(res[1]))
+				c04KeysAlongside = okRet
+			}
 			for _, st := range sets {
 				okRet = okRet && f.ObjOf(res[0]) == f.RootObj(st.Node.(*ast.AssignStmt).Lhs[0])
 			}
@@ -810,6 +848,18 @@ func c04Winner(p *chk.Prog, r *chk.Report) {
 			}
 		}
 	}
+	alongside := false
+	if list == nil && c04KeysAlongside {
+		// speakersForPool hands out the set and the list of its keys together
+		for _, st := range g.Find(func(nd ast.Node) bool {
+			as, ok := nd.(*ast.AssignStmt)
+			return ok && len(as.Lhs) == 2 && len(as.Rhs) == 1 && f.MatchWith("RECV.speakersForPool(_, _, P, N, ETC)", as.Rhs[0], chk.H("P", pool), chk.H("N", isParam(f, "nodes"))) != nil
+		}) {
+			if l := f.ObjOf(st.Node.(*ast.AssignStmt).Lhs[1]); l != nil && sm(st.Node.(*ast.AssignStmt).Lhs[0]) {
+				list, alongside = l, true
+			}
+		}
+	}
 	x.Check("ShouldAnnounce:candidates-are-filtered-speakers", f.Pos(), list != nil, "", "the candidates are not nodesWithActiveSpeakers(speakersForPool(l, name, pool, nodes))")
 	local := g.GPat(true, "S.Spec.ExternalTrafficPolicy == L", chk.H("S", isParam(f, "svc")), chk.H("L", constStr(f, "Local")))
 	es := g.EdgesImplying(local)
@@ -866,11 +916,14 @@ func c04Winner(p *chk.Prog, r *chk.Report) {
 		}
 	}
 	na := p.LookupFunc("speaker", "", "nodesWithActiveSpeakers")
-	if na == nil && !inPlace {
+	if na == nil && !inPlace && !alongside {
 		na = need(x, p, "speaker", "", "nodesWithActiveSpeakers")
 	}
 	if na == nil && inPlace {
 		x.OK("nodesWithActiveSpeakers:all-keys", f.Pos(), "the keys are collected in place in ShouldAnnounce")
+	}
+	if na == nil && alongside {
+		x.OK("nodesWithActiveSpeakers:all-keys", f.Pos(), "the keys are collected by speakersForPool as it fills the set")
 	}
 	if na != nil {
 		ag := na.Graph()
@@ -1211,4 +1264,193 @@ func keySources(f *chk.Fn, g *chk.Graph, v types.Object, depth int) ([]keySource
 		}
 	}
 	return out, true
+}
+
+// c04KeysAlongside: speakersForPool returns (set, list of the set's keys); set by the ELIGIBLE rule, read by WINNER.
+var c04KeysAlongside bool
+
+// c04ListOfKeys: l is a local list that starts empty, every insertion `S[K] = true` of sets has `l = append(l, K)` in
+// its own basic block, and l is assigned nowhere else.
+func c04ListOfKeys(f *chk.Fn, g *chk.Graph, sets []chk.Site, l types.Object) bool {
+	if l == nil {
+		return false
+	}
+	v, ok := l.(*types.Var)
+	if !ok || v.IsField() || v.Pkg() == nil || v.Parent() == v.Pkg().Scope() {
+		return false
+	}
+	if f.Type.Params != nil {
+		for _, fld := range f.Type.Params.List {
+			for _, nm := range fld.Names {
+				if f.Info().Defs[nm] == l {
+					return false
+				}
+			}
+		}
+	}
+	paired := map[ast.Node]bool{}
+	for _, st := range sets {
+		ix, isIx := ast.Unparen(st.Node.(*ast.AssignStmt).Lhs[0]).(*ast.IndexExpr)
+		if !isIx {
+			return false
+		}
+		found := false
+		for _, nd := range st.B.Nodes {
+			if f.IsAssignPat("R", "append(R, K)", chk.H("R", f.IsObj(l)), chk.H("K", func(e ast.Expr) bool { return f.SameExpr(e, ix.Index) }))(nd) {
+				found = true
+				paired[nd] = true
+			}
+		}
+		if !found {
+			return false
+		}
+	}
+	for _, n := range assignsTo(f, l) {
+		if paired[n] {
+			continue
+		}
+		// the declaration: empty
+		as, isAs := n.(*ast.AssignStmt)
+		if !isAs || len(as.Lhs) != len(as.Rhs) {
+			return false
+		}
+		for i, lh := range as.Lhs {
+			if id, isId := lh.(*ast.Ident); isId && f.ObjOf(id) == l {
+				r := ast.Unparen(as.Rhs[i])
+				cl, isLit := r.(*ast.CompositeLit)
+				if !(f.IsNilLit(r) || (isLit && len(cl.Elts) == 0) || f.MatchNew("make(T, 0)", r) != nil || f.MatchNew("make(T, 0, N)", r) != nil) {
+					return false
+				}
+				// ... and before every insertion
+				for _, st := range sets {
+					if as.Pos() > st.Pos() {
+						return false
+					}
+				}
+			}
+		}
+	}
+	return true
+}
+
+var c04PoolSets = map[types.Object]bool{}
+
+// c04PoolNodeSet: m is a local set holding exactly the nodes selected by an L2 advertisement of the pool:
+//
+//	m := map[string]bool{}
+//	for _, adv := range P.L2Advertisements { for node, ok := range adv.Nodes { if ok { m[node] = true } } }
+//
+// with nothing else stored in it, nothing deleted from it, both loops run to exhaustion without skipping a selected
+// node, and every read of it after the outer loop. Then m[s] is poolMatchesNodeL2(P, s).
+func c04PoolNodeSet(f *chk.Fn, g *chk.Graph, m types.Object, pool func(ast.Expr) bool) bool {
+	v, ok := m.(*types.Var)
+	if !ok || v.IsField() || v.Pkg() == nil || v.Parent() == v.Pkg().Scope() {
+		return false
+	}
+	if _, isMap := v.Type().Underlying().(*types.Map); !isMap {
+		return false
+	}
+	var outer *ast.RangeStmt
+	nSites := 0
+	okAll := true
+	chk.InspectNoLit(f.Body, func(n ast.Node) bool {
+		id, isId := n.(*ast.Ident)
+		if !isId || f.ObjOf(id) != m {
+			return true
+		}
+		par := f.Prog.Parent(id)
+		switch pp := par.(type) {
+		case *ast.AssignStmt:
+			// the declaration: an empty map
+			if len(pp.Lhs) == 1 && len(pp.Rhs) == 1 && pp.Lhs[0] == ast.Expr(id) {
+				r := ast.Unparen(pp.Rhs[0])
+				if cl, isLit := r.(*ast.CompositeLit); isLit && len(cl.Elts) == 0 {
+					return true
+				}
+				if f.MatchNew("make(T)", r) != nil || f.MatchNew("make(T, N)", r) != nil {
+					return true
+				}
+			}
+			okAll = false
+		case *ast.IndexExpr:
+			if pp.X != ast.Expr(id) {
+				okAll = false
+				return true
+			}
+			as, isAs := f.Prog.Parent(pp).(*ast.AssignStmt)
+			if !isAs || len(as.Lhs) != 1 || as.Lhs[0] != ast.Expr(pp) {
+				// a read (or a store among several): reads are placed below
+				if isAs {
+					for _, l := range as.Lhs {
+						if l == ast.Expr(pp) {
+							okAll = false
+						}
+					}
+				}
+				if _, isInc := f.Prog.Parent(pp).(*ast.IncDecStmt); isInc {
+					okAll = false
+				}
+				if u, isU := f.Prog.Parent(pp).(*ast.UnaryExpr); isU && u.Op == token.AND {
+					okAll = false
+				}
+				return true
+			}
+			// a store: m[node] = true for the node of a selected entry
+			if !f.IsConstBool(as.Rhs[0], true) {
+				okAll = false
+				return true
+			}
+			inner, _ := f.LoopOf(as).(*ast.RangeStmt)
+			if inner == nil || !rangeKey(f, inner)(pp.Index) {
+				okAll = false
+				return true
+			}
+			out, _ := f.LoopOf(inner).(*ast.RangeStmt)
+			if out == nil || f.MatchWith("P.L2Advertisements", out.X, chk.H("P", pool)) == nil || f.MatchWith("ADV.Nodes", inner.X, chk.H("ADV", rangeVal(f, out))) == nil {
+				okAll = false
+				return true
+			}
+			if outer != nil && outer != out {
+				okAll = false
+			}
+			outer = out
+			nSites++
+			sel := chk.GBool(true, rangeVal(f, inner))
+			sites := g.Find(func(nd ast.Node) bool { return nd == ast.Node(as) })
+			if len(sites) != 1 || !g.Dominated(sites[0], sel) {
+				okAll = false
+				return true
+			}
+			// no selected entry is passed over, no advertisement skipped
+			if loopSkipsWithout(g, inner, func(nd ast.Node) bool { return nd == ast.Node(as) }, chk.GBool(false, rangeVal(f, inner))) || loopHasBreak(g, inner) ||
+				loopCanSkip(g, out, func(nd ast.Node) bool { return nd == ast.Node(inner.X) }) || loopHasBreak(g, out) {
+				okAll = false
+			}
+			for _, rt := range g.Returns() {
+				if chk.InBody(out, rt.Node) {
+					okAll = false
+				}
+			}
+		case *ast.ValueSpec:
+			if len(pp.Values) != 0 {
+				okAll = false
+			}
+		default:
+			okAll = false
+		}
+		return true
+	})
+	if !okAll || nSites != 1 || outer == nil {
+		return false
+	}
+	// reads only once the set is complete
+	for _, rd := range g.FindPat("M[_]", chk.H("M", f.IsObj(m))) {
+		if as, isAs := rd.Top.(*ast.AssignStmt); isAs && chk.InBody(outer, as) {
+			continue
+		}
+		if !g.AfterLoop(rd, outer) {
+			return false
+		}
+	}
+	return true
 }
